@@ -11,6 +11,10 @@ if not m:
 if not m:
     print(name, "cannot parse demo header:", head[:300]); sys.exit(2)
 regex, pkg = m.group(1), m.group(2).rstrip("/")
+ov = re.search(r"-overlay=(\S+)", head)
+if ov and pkg == "internal/bgp/frr":
+    # the demonstration lives in the package whose TestMain needs Docker: use the stub overlay the author shipped
+    sys.exit(subprocess.call(["/verif/tools/seedverify_overlay.sh", wt, n, pkg, regex, ov.group(1), name, prop]))
 env = dict(os.environ, GOFLAGS="-mod=mod", GOPROXY="off")
 pk = subprocess.run("go list ./internal/... ./controller/ ./speaker/ | grep -v 'internal/bgp/frr$' | tr '\\n' ' '", shell=True, cwd="/repo", env=env, capture_output=True, text=True).stdout
 sys.exit(subprocess.call(["/verif/tools/seedverify.sh", wt, sd, pkg, regex, name, prop, pk]))
